@@ -1,6 +1,6 @@
 package dragonboat
 
-//vcheck:bounds C11 pool: the real snapshot workerPool (engine.go: workerPoolMain, loadNodes/unloadNodes, schedule, completed, start/setBusy/setIdle, get*Job) with 2 workers and 1-2 shards driven as an event loop: reflect.Select is replaced by a choice (symbolic variable) among the ready channels; before every select the environment takes 0..1 steps out of: a node requests save / recover / stream (node-level protocol: one outstanding request per kind and shard), (a worker picks up the job the pool handed to it right away,) a worker finishes its job and signals completion, NodeHost asks the pool to stop; at most 5 environment steps, at most one (thorough: two) per pool iteration, and 6 pool iterations before the stop is forced; other engine components hold 0 or 1 further load references on each node
+//vcheck:bounds C11 pool: the real snapshot workerPool (engine.go: workerPoolMain, loadNodes/unloadNodes, schedule, completed, start/setBusy/setIdle, get*Job) with 2 workers and 1-2 shards driven as an event loop: reflect.Select is replaced by a choice (symbolic variable) among the ready channels; before every select the environment takes 0..1 steps out of: a node requests save / recover / stream (node-level protocol: one outstanding request per kind and shard), (a worker picks up the job the pool handed to it right away,) a worker finishes its job and signals completion, NodeHost asks the pool to stop; at most 5 environment steps at one per pool iteration (thorough: also 4 steps at up to two per iteration), and 6 pool iterations before the stop is forced; other engine components hold 0 or 1 further load references on each node
 //vcheck:stub C11 pool: worker goroutines = harness model (a job is "inside the user state machine" from pick-up to completion; the real node.save/recover/stream bodies are decided by the C08/C11/C16 node and rsm harnesses); syncutil.Stopper.Stop of the worker stopper = every worker finishes its current job and returns, then the channel closes (what Stop waits for); time.Ticker never fires; managed state machine = load counter (Loaded/Offloaded as rsm.OffloadedStatus); pipeline.setCloseReady = recorder (from that moment the close worker may call Close on the user state machine)
 
 import (
@@ -66,6 +66,7 @@ type vPoolEnv struct {
 	saveOut, recoverOut map[uint64]bool
 	taken, finished     int
 	workersStopped      bool
+	perSelect, maxSteps int
 	others              []uint64
 }
 
@@ -186,7 +187,6 @@ func (e *vPoolEnv) step() {
 
 var vSSPool *vPoolEnv
 
-func vMaxEnvSteps() int { return 5 }
 
 
 // vStopperStop stands in for syncutil.Stopper.Stop: it returns only after the
@@ -261,6 +261,12 @@ func VHarness_C11_SnapshotPool() {
 	}
 	env.p = p
 	env.active = make([]*job, 2)
+	// quick: one environment event per pool iteration, 5 in all; thorough: that,
+	// or two per iteration (several channels ready at the same select), 4 in all
+	env.perSelect, env.maxSteps = 1, 5
+	if vTier() > 0 && vBool("twoEventsPerSelect") {
+		env.perSelect, env.maxSteps = 2, 4
+	}
 	vSSPool = env
 	vSelectHook = func() {
 		env.selects++
@@ -274,7 +280,7 @@ func VHarness_C11_SnapshotPool() {
 		}
 		// quick: at most one environment event per pool iteration; thorough: two
 		// (several channels ready at the same select)
-		for round := 0; round <= vTier() && env.steps < vMaxEnvSteps() && vBool("envstep?"); round++ {
+		for round := 0; round < env.perSelect && env.steps < env.maxSteps && vBool("envstep?"); round++ {
 			env.steps++
 			env.step()
 		}
